@@ -186,6 +186,9 @@ def check(rep, tier, seed):
     rep.outside_claim += ["exact boundary behaviour inside tower-http", "hyper's framing"]
     rep.trusted += ["tower-http limit layer", "mirsym", "z3"]
 
+    import e2e
+    e2e.confirm(rep, "C15")
+
 
 def replay(path):
     print(open(path).read())
